@@ -389,6 +389,36 @@ def r2_order_preserving_removal(C, rep, rid):
     rep.anchor(rid, "SerializedTlvStream mutator taking a type", n, 1)
 
 
+def g1_lookup_by_type(C, rep, rid):
+    rep.rule(rid, "SerializedTlvStream::get(typ) finds a record by type equality over the whole record list: it assumes no ordering of the (sender-controlled) records (no binary search, no early stop on a larger type)")
+    F, X = C.F, C.X
+    n = 0
+    for b in F.code_bodies():
+        if not b.span.get("f", "").endswith("src/tlv.rs"):
+            continue
+        if not (b.kind == "AssocFn" and b.arg_count == 2 and b.local_ty(1) == "&tlv::SerializedTlvStream" and b.local_ty(2) == "u64" and b.ret_ty.startswith("std::option::Option<")):
+            continue
+        n += 1
+        fn = F.root_of(b)
+        grp = F.group(fn)
+        bad = [c for g in grp for c in g.calls if c.mname in ("binary_search", "binary_search_by", "binary_search_by_key", "partition_point", "take_while", "skip_while", "map_while", "is_sorted", "is_sorted_by", "is_sorted_by_key")
+               and not c.noise]
+        rep.ob(rid, not bad, fn, "no order-dependent search", where=bad[0].loc if bad else loc(b.span), how="linear scan",
+               detail="" if not bad else "%s assumes the records are sorted by type, which the decoder does not enforce: a record that is present is not found when the sender orders the records differently" % bad[0].name)
+        eq, order = [], []
+        for g in grp:
+            for bi in sorted(g.reachable):
+                for s in g.blocks[bi]["s"]:
+                    if s["k"] == "assign" and s["rv"]["k"] == "bin" and s["rv"]["op"] in ("Eq", "Ne", "Lt", "Le", "Gt", "Ge"):
+                        t = [show(strip(X.operand(g, s["rv"]["a"]))), show(strip(X.operand(g, s["rv"]["b"])))]
+                        if any("TlvEntry::typ" in x or ".typ" in x for x in t) and any("param:typ" in x or "upvar:typ" in x or "param:" in x or "upvar:" in x for x in t):
+                            (eq if s["rv"]["op"] in ("Eq", "Ne") else order).append((g, s))
+        rep.ob(rid, len(eq) >= 1, fn, "records are selected by `e.typ == typ`", where=loc(b.span), how="%d equality test(s)" % len(eq), detail="" if eq else "the lookup does not compare the record type with the requested type")
+        rep.ob(rid, not order, fn, "no ordering comparison on record types", where=loc(order[0][1]["sp"]) if order else loc(b.span), how="none",
+               detail="" if not order else "the lookup compares record types by order (early stop / skip): it assumes sorted records")
+    rep.anchor(rid, "SerializedTlvStream lookup by type (&self, u64) -> Option<..>", n, 1)
+
+
 # ============================================================================ C06 P3..P6 / C07
 def p3_answer_reaches_everyone(C, rep, rid):
     rep.rule(rid, "the removed table entry is drained: the drain loop ends only when pop() returns None and every iteration sends the (cloned) response")
@@ -538,6 +568,73 @@ def p4b_answer_only_via_lifecycle(C, rep, rid):
         if site is not None and site[1] in b.reach([start]):
             ok = any(x[0] == "await" for x in walk(a)) and any(x[0] == "call" and x[1] == "tokio::sync::oneshot::channel" for x in walk(a))
             rep.ob(rid, ok, H.fn, "response after the lock is the lifecycle's", where=site[2], how=show(a)[:70], detail="" if ok else "after the lock the handler returns %s" % show(a)[:100])
+
+
+def u5_no_individual_rejection(C, rep, rid):
+    rep.rule(rid, "a failure answered to one HTLC directly (by the classification or by the handler before the table entry is taken) does not depend on that HTLC's own amount, expiry or declared total: such rejections go through the set's fail request so that every held part receives it")
+    F, X, A = C.F, C.X, C.A
+    H = handler(C)
+    b = H.body
+    if not rep.anchor(rid, "classification call in the handler", len(H.check), 1, fn=H.fn):
+        return
+    # the per-HTLC numeric fields of the request (amount, expiry, relative expiry, id; forward / total amount of the onion)
+    per = set()
+    radts = []
+    for name, adt in F.adts.items():
+        if name.endswith("::HtlcAcceptedRequest") and adt.get("variants"):
+            for f in adt["variants"][0]["fields"]:
+                radts.append(canon(f["ty"]))
+    for rn in radts:
+        adt = F.adts.get(rn)
+        if not adt or not adt.get("variants"):
+            continue
+        for f in adt["variants"][0]["fields"]:
+            if re.match(r"^(std::option::Option<)?[ui](8|16|32|64)>?$", f["ty"]):
+                per.add((rn, f["n"]))
+    rep.anchor(rid, "per-HTLC numeric fields of the request (amount, expiries, forward/total amount)", len(per), 4)
+    sites = []
+    callee = H.check[0].resolved or H.check[0].name
+    cb = F.by_cdef.get(callee)
+    bodies = [b] + ([cb] if cb is not None and cb is not b else [])
+    for body in bodies:
+        for bi in sorted(body.reachable):
+            for st in body.blocks[bi]["s"]:
+                if st["k"] == "assign" and st["rv"]["k"] == "agg" and _is_check_agg(H, st["rv"]) and st["rv"].get("variant") == H.resp_variant and st["rv"]["ops"]:
+                    sites.append((body, bi, strip(X.operand(body, st["rv"]["ops"][0])), loc(st["sp"])))
+    if H.lock:
+        r0 = b.reach([0], removed_nodes=[H.lock[0].bb])
+        for al in alts(strip(X.local(b, 0))):
+            site = al[3] if al[0] == "call" else (al[4] if al[0] == "agg" else None)
+            if isinstance(site, tuple) and site[0] == b.cdef and site[1] in r0:
+                sites.append((b, site[1], al, site[2]))
+    rep.anchor(rid, "direct answers (classification responses / handler returns before the lock)", len(sites), 3)
+
+    def per_reads(e):
+        out = []
+        for y in walk(e):
+            if y[0] == "field" and (canon(y[2] or ""), y[1]) in per:
+                out.append("%s.%s" % (canon(y[2]).split("::")[-1], y[1]))
+        return out
+    nfail = 0
+    for body, bi, e, where in sites:
+        vals = mm.eval_response(F, X, e, C.enc_table)
+        if not any(v[0] in ("Fail", "Opaque", "Resolve") for v in vals):
+            continue
+        nfail += 1
+        reads = []
+        for cnd, truth in lib.dominating_conditions(body, bi):
+            es = []
+            if cnd.kind == "cmp":
+                es = [strip(X.operand(body, cnd.a)), strip(X.operand(body, cnd.b))]
+            elif cnd.place is not None:
+                es = [strip(X.place(body, cnd.place))]
+            for x in es:
+                x = strip(mm.inline_getters(F, X, x))
+                reads += per_reads(x)
+        ok = not reads
+        rep.ob(rid, ok, F.root_of(body), "direct failure does not depend on the individual HTLC", where=where, how="conditions read no per-HTLC amount/expiry field; answer %s" % sorted({v[0] for v in vals}),
+               detail="" if ok else "an HTLC is answered %s directly, depending on its own %s: the other parts held for the same payment do not receive that answer (and a part of a payment already in flight would be failed while the rest is settled)" % (sorted({v[0] for v in vals}), ", ".join(sorted(set(reads)))))
+    rep.anchor(rid, "direct failure answers examined", nfail, 1)
 
 
 def latch_info(C):
